@@ -99,11 +99,8 @@ C_<TN_, TA_, SG_, TH_, TS_...>::deepReenter(PlanControl& control) noexcept {
 	else {
 		SubStates::wideExit	  (control, active);
 
-		active  = requested;
-
-		if (requested == resumable) {
-			resumable = INVALID_PRONG;
-		}
+		resumable = active;
+		active	  = requested;
 
 		SubStates::wideEnter  (control, active);
 	}
